@@ -41,6 +41,11 @@ func (zo *Object) GetObjectName() string {
 	return zo.model.GetName()
 }
 
+// GetModule - the module that declares the object's class (nil for built-in classes)
+func (zo *Object) GetModule() *r.Module {
+	return zo.model.GetModule()
+}
+
 func (zo *Object) IsInstanceOf(classModel *ClassModel) bool {
 	return zo.model == classModel
 }
